@@ -312,14 +312,15 @@ func TestVerifC08Update(t *testing.T) {
 			// of the priorities is often an exact multiple of it — the boundary of the rescaling
 			// ratio (ceiling division)
 			kind = "tiny-powers-heavy-leaves"
+			scale := []int64{1, 1, 7, 1000}[r.Intn(4)] // tiny numbers hit exact multiples, larger ones hit the truncation of the division
 			for attempt := 0; attempt < 40; attempt++ {
 				nv := 2 + r.Intn(3)
 				var vals []*Validator
 				heavy, hp := 0, int64(0)
 				for i := 0; i < nv; i++ {
-					pw := 1 + r.Int63n(3)
+					pw := 1 + r.Int63n(3*scale)
 					if i == nv-1 || r.Chance(25) {
-						pw = 4 + r.Int63n(9)
+						pw = 4*scale + r.Int63n(9*scale)
 					}
 					if pw > hp {
 						heavy, hp = i, pw
@@ -327,7 +328,7 @@ func TestVerifC08Update(t *testing.T) {
 					vals = append(vals, &Validator{Address: pool[i%len(pool)], VotingPower: pw})
 				}
 				tiny := NewValidatorSet(vals)
-				for i := r.Intn(7); i > 0; i-- {
+				for i := r.Intn(12); i > 0; i-- {
 					tiny.IncrementProposerPriority(1)
 				}
 				snap = c08Copy(tiny.Validators)
@@ -358,6 +359,9 @@ func TestVerifC08Update(t *testing.T) {
 				}
 				if w := 2 * newTotal; w > 0 && hi-lo > w && (hi-lo)%w == 0 {
 					kind = "tiny-powers-heavy-leaves/spread-multiple-of-window"
+					break
+				} else if w > 0 && hi-lo > w && scale > 1 {
+					kind = "heavy-leaves/rescaling-fires"
 					break
 				}
 				if attempt >= 20 && r.Chance(30) {
